@@ -1101,3 +1101,19 @@ func (e *Enc) interestTerms(st *State, name string, v Val, t types.Type, depth i
 	}
 	return out
 }
+
+
+// arrStr: the content of a byte-array VALUE (arrays are held as one value of an uninterpreted
+// sort) as a string; injective (two arrays with the same content are the same value).
+func (e *Enc) arrStr(av Term) Term {
+	fn := "|arrstr " + string(av.Sort) + "|"
+	fn = strings.ReplaceAll(fn, "||", "|")
+	fn = "|arrstr " + strings.Trim(string(av.Sort), "|") + "|"
+	inv := "|strarr " + strings.Trim(string(av.Sort), "|") + "|"
+	if !e.declared[fn] {
+		e.declFun(fn, []Sort{av.Sort}, SStr)
+		e.declFun(inv, []Sort{SStr}, av.Sort)
+		e.asserts = append(e.asserts, fmt.Sprintf("(forall ((a %s)) (! (= (%s (%s a)) a) :pattern ((%s a))))", av.Sort, inv, fn, fn))
+	}
+	return app(SStr, fn, av)
+}
